@@ -336,6 +336,13 @@ def r9(ctx, prog):
     ctx.floor(R, 1)
 
 
+def r10(ctx, prog):
+    R = ctx.rule("C01.R10", "page flags: the flag byte is changed only through its setters (never as a whole), has_aligned is cleared only on all-free pages — "
+                            "otherwise an interior pointer of a live aligned block is later freed as a block start and the next allocation overlaps its neighbour")
+    shared.flag_integrity(ctx, R, prog)
+    ctx.floor(R, 4)
+
+
 def run(ctx):
     ctx.explanation = ("Static decision of C01's code-shaped necessary conditions (all CFG paths): pairing of the free-list pop/push with the used counter, conservation of blocks "
                        "between the three lists, free-list extension bounded by the reserve computed from the page's own area, page free only when all-free, span "
@@ -344,7 +351,7 @@ def run(ctx):
     for c in (["REL"] if ctx.tier == "quick" else ["REL", "SEC", "DBG"]):
         prog = ctx.prog(c)
         n0 = len(ctx.instances)
-        r1(ctx, prog); r2(ctx, prog); r3(ctx, prog); r4(ctx, prog); r5(ctx, prog); r6(ctx, prog); r7(ctx, prog); r8(ctx, prog); r9(ctx, prog)
+        r1(ctx, prog); r2(ctx, prog); r3(ctx, prog); r4(ctx, prog); r5(ctx, prog); r6(ctx, prog); r7(ctx, prog); r8(ctx, prog); r9(ctx, prog); r10(ctx, prog)
         if c != "REL":
             for i in ctx.instances[n0:]:
                 i["site"] += " [%s]" % c
